@@ -644,3 +644,15 @@ def classify(case, witness):
     # No open finding.  The one defect this check found (ZeroDivisionError when the track ends with a repeated
     # position and k*ds rounds above the last abscissa) was fixed in /repo (1e62230); fixed entries suppress nothing.
     return None
+
+
+# floors for the call-history workloads added in session 3 (a run in which they were silently skipped is inconclusive)
+_floors_base = floors
+_FLOORS_EXTRA = {'counters': {'numeric_step_lands_exactly_on_last': 50}}
+
+
+def floors(tier):
+    f = _floors_base(tier)
+    for kind, d in _FLOORS_EXTRA.items():
+        f.setdefault(kind, {}).update(d)
+    return f
